@@ -24,7 +24,10 @@ from mc.common import Acc
 
 RULE = ("every presentation within the deviation bound of every block of the listed force fields; distinct = distinct "
         "(force field, block, deviation tuple); non-trivial = at least one deviation")
-ASSUMPTIONS = ["elements are those of the canonical block atoms (first letter rule of the library) and stay with the atom when names are swapped",
+ASSUMPTIONS = ["block atoms without any bond (lone-pair sites) are never deleted: they cannot be placed by connectivity",
+               "two-deviation presentations whose largest match is not known by construction (a removed leaf re-attached, overlapping "
+               "removals) are not generated",
+               "elements are those of the canonical block atoms (first letter rule of the library) and stay with the atom when names are swapped",
                "deleted atoms are non-cut vertices; attached atoms go on heavy atoms",
                "mutation/modification requests on the residue are covered by the C19 check"]
 _FF = {}
@@ -179,7 +182,8 @@ def single_deviations(names, elements, edges, tier):
     for i in range(n):
         devs.append(('rename', i))
     for i in range(n):
-        if i not in cut and n > 1:
+        # atoms without any bond in the block (lone-pair sites of some small molecules) cannot be placed by connectivity
+        if i not in cut and n > 1 and graph.degree[i] > 0:
             devs.append(('delete', i))
     for i in range(n):
         if elements[i] != 'H':
@@ -223,7 +227,23 @@ def block_tasks(ffname, blockname, tier, depth):
             out.append((('permute-names', perm),))
     if depth >= 2:
         if len(names) <= 10:
+            degree = {}
+            for x, y in edges:
+                degree[x] = degree.get(x, 0) + 1
+                degree[y] = degree.get(y, 0) + 1
+            nbr = {}
+            for x, y in edges:
+                nbr.setdefault(x, []).append(y)
+                nbr.setdefault(y, []).append(x)
             for a, b in itertools.combinations(singles, 2):
+                kinds = {a[0], b[0]}
+                if kinds == {'delete', 'attach'}:
+                    dele, att = (a, b) if a[0] == 'delete' else (b, a)
+                    # removing a leaf and attaching the same element to its neighbour is the canonical residue again
+                    if degree.get(dele[1], 0) == 1 and nbr[dele[1]][0] == att[1] and elements[dele[1]] == att[2]:
+                        continue
+                if kinds & {'delete-heavy', 'delete-pair'} and kinds & {'delete', 'attach', 'delete-heavy', 'delete-pair'} and len(kinds) > 1:
+                    continue      # overlapping removals / attachments onto removed atoms: expectation not known by construction
                 out.append((a, b))
         else:
             swaps = [d for d in singles if d[0] == 'swap-names']
